@@ -112,7 +112,7 @@ def gen_one(rng, tier):
 
 
 def gen_cases(tier, seed):
-    n = 1200 if tier == 'quick' else 16 * 1500
+    n = 1200 if tier == 'quick' else 16 * 5000
     for i in range(n):
         yield gen_one(random.Random(f'C16/{seed}/{tier}/{i}'), tier)
 
